@@ -317,6 +317,16 @@ func c12RoundTrip(w *mon.W, idx int) {
 		bm = append(bm, 0, 0) // trailing zero words
 		w.Bucket("roundtrip/trailing-zero-words")
 	}
+	if idx%25 == 7 {
+		// exactly 255, 256, 257, 511, 512 ones (the sizes at which a scratch buffer of a power-of-two capacity is just
+		// not, exactly, and just outgrown): full words plus a partial one
+		ones := []int{255, 256, 257, 511, 512, 1024}[(idx/25)%6]
+		bm = make([]uint64, ones/64+2)
+		for k := 0; k < ones; k++ {
+			setBit(bm, 64+k)
+		}
+		w.Bucket("roundtrip/popcount-around-256")
+	}
 	orig := cloneWords(bm)
 	if bm != nil {
 		var guard func() bool
@@ -355,6 +365,10 @@ func c12RoundTrip(w *mon.W, idx int) {
 	w.Eval(1)
 	if !eqWords(trimZeros(back), trimZeros(orig)) {
 		w.Fail("Of(ToArray(b))!=b", mon.D{"words": truncW(orig, 4), "got": truncW(back, 4)})
+		return
+	}
+	// the list ToArray returned is the caller's: it is kept (unscribbled) and must read the same after later calls
+	if !retainCheck(w, "ToArray/roundtrip", "bitmap.ToArray", func() uint64 { return hashI32(arr) }) {
 		return
 	}
 	if nontrivialBitmap(orig) {
@@ -852,5 +866,7 @@ func c12Top(w *mon.W, _ int) {
 	}
 	w.Bucket("positions-up-to-maxint32")
 	w.Distinct(gen.Hash64(0x2b12, 5))
-	w.Sample(func() interface{} { return mon.D{"what": "Of / ToArray / Get* on lists ending at MaxInt32 (bitmaps of 2^25 words)"} })
+	w.Sample(func() interface{} {
+		return mon.D{"what": "Of / ToArray / Get* on lists ending at MaxInt32 (bitmaps of 2^25 words)"}
+	})
 }
